@@ -64,11 +64,9 @@ _flight: Any = None
 def flight_server() -> Any:
     global _flight
     if _flight is None:
-        from mloda.core.runtime.flight.runner_flight_server import ParallelRunnerFlightServer
+        from harness.flight import start_private_flight_server
 
-        _flight = ParallelRunnerFlightServer()
-        _flight.start_flight_server_process()
-        time.sleep(0.4)
+        _flight = start_private_flight_server()
     return _flight
 
 
@@ -106,7 +104,7 @@ def gen_spec(rng: Any, max_feats: int = 8, frameworks: Sequence[str] = ("pa",), 
     root = {"name": f"R{uid}", "cols": {f"r{uid}_{i}": [rng.choice([None] * 1 + list(range(-3, 6))) if rng.random() < 0.15 else rng.randint(-5, 9) for _ in range(nrows)] for i in range(ncols)}, "fw": rng.choice(list(frameworks))}
     avail = list(root["cols"].keys())  # features that can be parents
     owner = {c: root["name"] for c in avail}
-    ngroups = rng.randint(1, 3)
+    ngroups = rng.randint(2, 5) if single_parent else rng.randint(1, 3)
     groups = []
     nfeat_total = rng.randint(1, max_feats)
     k = 0
@@ -114,7 +112,7 @@ def gen_spec(rng: Any, max_feats: int = 8, frameworks: Sequence[str] = ("pa",), 
         gname = f"G{uid}_{g}"
         gfw = rng.choice(list(frameworks)) if allow_multi_fw else root["fw"]
         feats: Dict[str, Any] = {}
-        nf = max(1, nfeat_total // ngroups + rng.randint(-1, 1))
+        nf = 1 if single_parent else max(1, nfeat_total // ngroups + rng.randint(-1, 1))  # multi-framework chains: one feature per group
         for _ in range(nf):
             fname = f"d{uid}_{k}"
             k += 1
@@ -354,9 +352,65 @@ def read_events(path: str) -> List[Dict[str, Any]]:
     return evs
 
 
-def run_session(session: Any, mode: str, api_data: Any = None, extenders: Any = None, stream: bool = False, consume: Optional[int] = None, timeout: float = 60.0) -> RunResult:
-    """Run a prepared session in one mode, with step observers on and a watchdog (the run happens in a helper thread so
-    a spinning orchestrator is reported as a timeout instead of hanging the check)."""
+def kill_stray_children() -> None:
+    """Terminate child processes of this check other than its flight server (left behind by a run that hung)."""
+    import multiprocessing
+
+    keep = _flight.flight_server_process.pid if (_flight is not None and _flight.flight_server_process is not None) else None
+    for ch in multiprocessing.active_children():
+        if ch.pid != keep:
+            try:
+                ch.terminate()
+                ch.join(2)
+                if ch.is_alive():
+                    ch.kill()
+            except Exception:
+                pass
+
+
+def guarded(fn: Any, timeout: float) -> Tuple[bool, Any]:
+    """Run fn() in a helper thread; (finished, result-or-exception)."""
+    box: Dict[str, Any] = {}
+
+    def target() -> None:
+        try:
+            box["r"] = fn()
+        except BaseException as e:  # noqa
+            box["e"] = e
+
+    th = threading.Thread(target=target, daemon=True)
+    th.start()
+    th.join(timeout)
+    if th.is_alive():
+        return False, None
+    if "e" in box:
+        return True, box["e"]
+    return True, box.get("r")
+
+
+FLAKES = {"hangs_retried": 0}
+
+
+def run_session(session: Any, mode: str, api_data: Any = None, extenders: Any = None, stream: bool = False, consume: Optional[int] = None, timeout: float = 60.0,
+                attempts: int = 3) -> RunResult:  # fmt: skip
+    """Run a prepared session in one mode, with step observers on and a watchdog (the run happens in a helper thread so a
+    spinning orchestrator is reported as a timeout instead of hanging the check).  A run that does not end is repeated:
+    a deterministic spin (a logic error) hangs every time and is reported as `timed_out`; a hang that does not reproduce
+    (fork of the manager / worker processes from a multi-threaded parent can deadlock the child - an OS-level hazard of
+    fork+threads, more likely under load) is counted in FLAKES and not reported."""
+    rr = _run_session_once(session, mode, api_data, extenders, stream, consume, timeout)
+    n = 1
+    while rr.timed_out and n < attempts:
+        kill_stray_children()
+        FLAKES["hangs_retried"] += 1
+        rr = _run_session_once(session, mode, api_data, extenders, stream, consume, timeout)
+        n += 1
+    if rr.timed_out:
+        kill_stray_children()
+    return rr
+
+
+def _run_session_once(session: Any, mode: str, api_data: Any, extenders: Any, stream: bool, consume: Optional[int], timeout: float) -> RunResult:
     install_step_observers()
     rr = RunResult()
     fd, path = tempfile.mkstemp(prefix="verif_ev_", suffix=".jsonl")
